@@ -154,7 +154,8 @@ class Model:
         if k == "call" and t[1] == MULT and t[2] == P(0):
             return v_image(self.vecval(t[3]), "A")
         if k == "call" and t[1] == TMULT and t[2] == P(0):
-            return v_image(self.vecval(t[3]), "At")
+            # CG is claimed for symmetric (positive definite) matrices only: there A^T p is A p
+            return v_image(self.vecval(t[3]), "A" if getattr(self, "symmetric", False) else "At")
         if k == "call" and str(t[1]).endswith("Vector<T>::new") and t[3] == num(0):
             return {}
         if k == "ite" and len(t) == 4:
@@ -483,6 +484,7 @@ class Solver:
             assume = cases.pop()
             m = Model(self.pdb, self.fn, self.ctx, self.vec_vars, assume, hyps)
             m.counter = self.counter
+            m.symmetric = self.name == "solve_cg"
             try:
                 body = self.main["body"]
                 if self.main.get("k") == "While":
